@@ -290,9 +290,13 @@ func runC16(c0 *Ctx) {
 			c.R.Funcs[c.nm(ef)] = true
 			okArg = okArg && len(ev) == 1
 			if okArg {
-				a := argsOf(ev[0])[0]
+				// (each operand as the value it holds where it is used: a
+				// field of a small struct this function builds itself is what
+				// was stored there)
+				a := ir.ValueAt(argsOf(ev[0])[0], ev[0].Block())
 				b := adds[0].(*ssa.Store).Val.(*ssa.BinOp)
-				okArg = (b.X == a || b.Y == a) && sizeM(a)
+				bx, by := ir.ValueAt(b.X, b.Block()), ir.ValueAt(b.Y, b.Block())
+				okArg = (bx == a || by == a) && sizeM(a)
 			}
 			needed = isParam(ef, 1)
 		}
